@@ -384,6 +384,13 @@ def files_cases(tier):
     for mode in ("exposure1", "obs_seq"):
         cases.append({"part": "files", "save": [["pixel", "npy"], ["image", "fits"]], "mode": mode, "repeat": 3})
         cases.append({"part": "files", "save": [["pixel", "npy"]], "mode": mode, "repeat": 2, "precious": True})
+    # a stochastic pipeline without a seed (every execution of a run gives other data)
+    for mode in ("obs_dask", "obs_seq"):
+        cases.append({"part": "files", "save": [["pixel", "npy"], ["signal", "fits"]], "mode": mode, "noise": True})
+    # one bucket named in two NON-adjacent entries of the save list
+    for mode in ("exposure1", "obs_seq", "obs_dask"):
+        cases.append({"part": "files", "save": [["image", "fits"], ["pixel", "npy"], ["image", "npy"]], "mode": mode,
+                      "entries": "separate"})
     # the save list of ONE outputs object edited in place between two runs (an entry appended / a format list replaced)
     for mode in ("exposure1", "obs_seq", "obs_dask"):
         cases.append({"part": "files", "save": [["pixel", "npy"]], "mode": mode, "repeat": 2,
@@ -411,7 +418,9 @@ def _read_back(path):
     return None
 
 
-def _save_list(sl):
+def _save_list(sl, separate=False):
+    if separate:                                # one entry per (bucket, format), in the given order
+        return [{f"detector.{b}.array": [f]} for b, f in sl]
     d = {}
     for b, f in sl:
         d.setdefault(f"detector.{b}.array", []).append(f)
@@ -534,13 +543,14 @@ def run_files_case(case):
                                                                {"buckets": ["photon", "charge", "pixel", "signal", "image"],
                                                                 "salt": float(seed + rep)})]})
                     if outobj is None:
-                        outobj = ExposureOutputs(output_folder=parent, save_data_to_file=_save_list(sl))
+                        outobj = ExposureOutputs(output_folder=parent, save_data_to_file=_save_list(sl, case.get("entries") == "separate"))
                     res = pyxel.run_mode(mk.exposure(times, outputs=outobj), det, pipe, with_inherited_coords=True)
                     expected = {(): _final_buckets()}
                 else:
-                    pipe = mk.pipeline({"photon_collection": [("props.c19_outputs.enc_all", "enc", {"a": 0.0, "b": 0.0})]})
+                    pipe = mk.pipeline({"photon_collection": [("props.c19_outputs.enc_all", "enc",
+                                                               {"a": 0.0, "b": 0.0, "noise": bool(case.get("noise"))})]})
                     if outobj is None:
-                        outobj = ObservationOutputs(output_folder=parent, save_data_to_file=_save_list(sl))
+                        outobj = ObservationOutputs(output_folder=parent, save_data_to_file=_save_list(sl, case.get("entries") == "separate"))
                     vals = [1 + seed + rep, 2 + seed + rep, 3 + seed + rep]
                     pvs = [ParameterValues(key="pipeline.photon_collection.enc.arguments.a", values=vals)]
                     grid = None
@@ -561,6 +571,15 @@ def run_files_case(case):
                     else:
                         res = pyxel.run_mode(obs, det, pipe, with_inherited_coords=True)
                     expected = {(v,): enc_expected(v) for v in vals}
+                    if case.get("noise"):
+                        # stochastic pipeline without a seed: the files must hold the buckets of THE execution whose data
+                        # the result carries (not those of another execution of the same run)
+                        node = res["/bucket"] if "bucket" in res.children else res
+                        for (b, _f) in sl:
+                            da = node[b]
+                            dim = [d for d in da.dims if d not in ("time", "y", "x")][0]
+                            for i, v in enumerate(np.asarray(da.coords[dim].values).tolist()):
+                                expected[(v,)] = dict(expected[(v,)], **{b: np.asarray(da.isel({dim: i, "time": 0}).values)})
                     if grid is not None:
                         expected = {(x, y): enc_expected(float(x) + 1000.0 * float(y)) for x, y in grid}
             except NotImplementedError as e:
@@ -643,9 +662,12 @@ def run_files_case(case):
             "sets": {"unsupported": [f"{mode.rstrip('12')}:{f}" for _, f in sl] if unsupported and len(sl) == 1 else []}}
 
 
-def enc_all(detector, a=0.0, b=0.0):
-    """probe for the observation cases: every bucket is an injective function of the swept value(s)."""
+def enc_all(detector, a=0.0, b=0.0, noise=False):
+    """probe for the observation cases: every bucket is an injective function of the swept value(s); with `noise` an
+    unseeded random term is added to the float buckets (two executions of the same run then differ)"""
     for bucket, v in enc_expected(float(a) + 1000.0 * float(b)).items():
+        if noise and bucket != "image":
+            v = v + np.random.normal(0.0, 1.0, size=v.shape)
         if bucket == "charge":
             detector.charge.add_charge_array(v)
         elif bucket == "image":
